@@ -7,7 +7,16 @@ set_option linter.unusedSimpArgs false
 set_option linter.unusedVariables false
 namespace NQ.Sdk
 
+/-- arithmetic on code lengths -/
+macro "len_omega" : tactic =>
+  `(tactic| first | omega | (simp only [List.length_append, List.length_cons, List.length_nil] <;> omega))
+
 /-! ## instruction helpers -/
+
+theorem runs_seq' {p : List PCmd} {n n2 l1 l2 : Nat} {s s1 s2 : St}
+    (h1 : Runs p n l1 s s1) (h2 : Runs p n2 l2 s1 s2) (e : n2 = n + l1) : Runs p n (l1 + l2) s s2 := by
+  subst e; exact runs_seq h1 h2
+
 
 theorem idxOf_some {v : Int} {i : Nat} (h : idxOf v = some i) : 0 ≤ v ∧ i = v.toNat := by
   unfold idxOf at h
@@ -369,6 +378,218 @@ theorem branch_sim {m m' : Mem} {c : Cond} {a b : Val} {st : List PCmd} {l : Lbl
                 | false => rfl
                 | true => exact absurd ((condB_iff c va vb).mp hb) hc
               simp [hc, this]
+
+
+/-! ## `add` -/
+
+theorem addOther_sim {m m1 : Mem} {v : Val} {cs : List PCmd} {o : POp} {t : Option Nat}
+    (h : addOther m v = .ok (m1, cs, o, t))
+    {H : List (Reg × Bool)} {L : List Nat} {act mu : List Bool} {hs : HSt} {ts : St} {p : List PCmd} {n : Nat}
+    (hext : Ext m.handles H) (hrel : Rel H L act mu hs ts) (hsub : Sub act m.active)
+    (hlen : m.active.length = act.length) (hpl : Placed p n cs) {x : Int} (hv : evalVal hs v = some x) :
+    ∃ ts1, TmpEq m.active ts ts1 ∧ Runs p n cs.length ts ts1 ∧
+      ∀ ts2, TmpEq m1.active ts1 ts2 → opVal ts2 o = some x := by
+  cases v with
+  | lit y =>
+    simp [addOther] at h
+    obtain ⟨rfl, rfl, rfl, rfl⟩ := h
+    simp [evalVal] at hv; subst hv
+    exact ⟨ts, TmpEq.refl _ _, Runs.refl _ _ _, fun _ _ => rfl⟩
+  | reg hh =>
+    simp only [addOther] at h
+    split at h
+    · cases h
+    · rename_i r isRF hh1
+      split at h
+      · cases h
+      · cases h
+        simp [evalVal] at hv
+        have hr := hrel.reg_val hv (hext _ _ (handle_get hh1))
+        refine ⟨ts, TmpEq.refl _ _, Runs.refl _ _ _, ?_⟩
+        intro ts2 h2
+        rw [opVal_reg, h2.regs r (fun hc => hr.2.not_tmp (hc.sub hsub hlen))]
+        exact hr.1
+  | fut g =>
+    simp only [addOther] at h
+    split at h
+    · cases h
+    · rename_i m' u h1
+      split at h
+      · cases h
+      · rename_i m2 ld h2
+        cases h
+        have s1 := takeReg_spec h1
+        have htmp : TmpIn m.active (R u) := ⟨rfl, s1.1⟩
+        simp only [evalVal] at hv
+        obtain ⟨tsA, hte, hrun⟩ := load_fut_sim h2 (by rw [s1.2.2.1]; exact hext) hrel
+          (by rw [s1.2.1]; exact hsub.trans (Sub.set _ _)) (by rw [s1.2.1]; simpa using hlen) hpl hv
+        rw [s1.2.1] at hte
+        refine ⟨tsA.setReg (R u) x, hte.of_set.setReg htmp x, hrun, ?_⟩
+        intro ts2 h2'
+        rw [accessCmds_active _ _ _ _ _ _ h2, s1.2.1] at h2'
+        rw [opVal_reg, h2'.regs (R u) ?_]
+        · simp
+        · intro hc
+          have := hc.2
+          have e : (R u).idx = u := rfl
+          rw [e, getD_set_self (getD_true_false_lt s1.1)] at this
+          cases this
+
+theorem addResH_some {x y r : Int} {md : Option Int} (h : addResH x y md = some r) :
+    (∀ m, md = some m → 1 ≤ m) ∧ addRes x y md = r := by
+  cases md with
+  | none =>
+    simp [addResH] at h
+    exact ⟨fun _ hm => (by cases hm), (by simp [addRes, h])⟩
+  | some m =>
+    simp only [addResH] at h
+    split at h
+    · cases h
+    · rename_i hm
+      cases h
+      exact ⟨fun m' hm' => by cases hm'; omega, rfl⟩
+
+theorem readCell_some {arrs : Nat → Option (List (Option Int))} {a i : Nat} {v : Int}
+    (h : readCell arrs a i = some v) : ∃ l, arrs a = some l ∧ i < l.length ∧ l[i]? = some (some v) := by
+  unfold readCell at h
+  split at h
+  · rename_i l hl
+    split at h
+    · rename_i v' hv'
+      cases h
+      refine ⟨l, hl, ?_, hv'⟩
+      by_cases hi : i < l.length
+      · exact hi
+      · simp [List.getElem?_eq_none (Nat.le_of_not_lt hi)] at hv'
+    · cases h
+  · cases h
+
+theorem not_tmp_of_set_self {a : List Bool} {t : Nat} (ht : a.getD t true = false) :
+    ¬ TmpIn (a.set t true) (R t) := by
+  intro hc
+  have := hc.2
+  have e : (R t).idx = t := rfl
+  rw [e, getD_set_self (getD_true_false_lt ht)] at this
+  cases this
+
+/-- `Future.add(other, mod)` -/
+theorem addF_sim {m m' : Mem} {f : Fut} {o : Val} {md : Option Int} {cs : List PCmd}
+    (h : emitAddF m f o md = .ok (m', cs))
+    {H : List (Reg × Bool)} {L : List Nat} {mu : List Bool} {hs hs' : HSt} {ts : St} {p : List PCmd} {n : Nat}
+    (hext : Ext m.handles H) (hrel : Rel H L m.active mu hs ts) (hpl : Placed p n cs)
+    {a i : Nat} {x y r : Int} (hev : evalFut hs f = some (a, i)) (hx : readCell hs.arrs a i = some x)
+    (hy : evalVal hs o = some y) (hr : addResH x y md = some r) (hw : writeCell hs a i r = some hs') :
+    ∃ ts', Runs p n cs.length ts ts' ∧ Rel H L m.active mu hs' ts' := by
+  unfold emitAddF at h
+  split at h
+  · cases h
+  · rename_i m1 t h1
+    split at h
+    · cases h
+    · rename_i m2 ld h2
+      split at h
+      · cases h
+      · rename_i m3 st h3
+        split at h
+        · cases h
+        · rename_i m4 ld2 oo tmp2 h4
+          split at h
+          · cases h
+          · rename_i m5 h5
+            split at h
+            · cases h
+            · rename_i m6 h6
+              cases h
+              have s1 := takeReg_spec h1
+              have htmp : TmpIn m.active (R t) := ⟨rfl, s1.1⟩
+              have a2 := accessCmds_active _ _ _ _ _ _ h2
+              have a3 := accessCmds_active _ _ _ _ _ _ h3
+              have sm2 := accessCmds_same _ _ _ _ _ _ h2
+              have sm3 := accessCmds_same _ _ _ _ _ _ h3
+              have e2 : m2.active = m.active.set t true := by rw [a2, s1.2.1]
+              have e3 : m3.active = m.active.set t true := by rw [a3, e2]
+              have hsub1 : Sub m.active (m.active.set t true) := Sub.set _ _
+              have hl1 : (m.active.set t true).length = m.active.length := by simp
+              have hnt := not_tmp_of_set_self s1.1
+              obtain ⟨rres, hres⟩ := addResH_some hr
+              obtain ⟨l, hl, hil, _⟩ := readCell_some hx
+              -- 1. load self
+              have hplLd : Placed p n ld := hpl.left.left.left
+              obtain ⟨tsA, hteA, hrunA⟩ := (access_sim f m1 false (R t) m2 ld h2 H L m.active mu hs ts p n
+                (by rw [s1.2.2.1]; exact hext) hrel (by rw [s1.2.1]; exact hsub1) (by rw [s1.2.1]; exact hl1)
+                hplLd a i hev).1 rfl x hx
+              rw [s1.2.1] at hteA
+              have hte1 : TmpEq m.active ts (tsA.setReg (R t) x) := hteA.of_set.setReg htmp x
+              have hrel1 := hrel.tmp hte1
+              -- 2. other operand
+              have hplLd2 : Placed p (n + ld.length) ld2 := hpl.left.left.right
+              obtain ⟨ts2, hte2, hrun2, hop2⟩ := addOther_sim h4
+                (by rw [sm3.handles, sm2.handles, s1.2.2.1]; exact hext) hrel1
+                (by rw [e3]; exact hsub1) (by rw [e3]; exact hl1) hplLd2 hy
+              rw [e3] at hte2
+              have hreg2 : ts2.regs (R t) = some x := by
+                rw [hte2.regs (R t) hnt]; simp
+              -- 3. add
+              have hplAdd := hpl.left.right.head
+              have hstep := step_addInstr ts2 (R t) oo md x y hplAdd hreg2 (hop2 ts2 (TmpEq.refl _ _)) rres
+              rw [hres] at hstep
+              have hte3 : TmpEq m.active ts ((ts2.setReg (R t) r)) :=
+                (hte1.trans hte2.of_set).setReg htmp r
+              have hrel3 := hrel.tmp hte3
+              -- 4. store self
+              have hplSt := hpl.right
+              obtain ⟨tsD, hteD, hrunD⟩ := (access_sim f m2 true (R t) m3 st h3 H L m.active mu hs
+                (ts2.setReg (R t) r) p _
+                (by rw [sm2.handles, s1.2.2.1]; exact hext) hrel3 (by rw [e2]; exact hsub1) (by rw [e2]; exact hl1)
+                hplSt a i hev).2 rfl r l (by simp) (by rw [e2]; exact hnt) hl hil
+              rw [e2] at hteD
+              have hrelD := hrel3.tmp hteD.of_set
+              have hw' : hs' = hs.setArr a (l.set i (some r)) := by
+                unfold writeCell at hw
+                rw [hl] at hw
+                simp [hil] at hw
+                exact hw.symm
+              refine ⟨tsD.setArr a (l.set i (some r)), ?_, ?_⟩
+              · have r12 := runs_seq hrunA hrun2
+                have r3 : Runs p (n + (ld ++ ld2).length) 1 ts2 (ts2.setReg (R t) r) := runs_one hstep
+                have r123 := runs_seq' r12 r3 (by len_omega)
+                have r4 := runs_seq' r123 hrunD (by len_omega)
+                exact runs_cast r4 (by len_omega)
+              · rw [hw']
+                exact hrelD.setArr hl (by simp)
+
+/-- `RegFuture.add(other, mod)` -/
+theorem addR_sim {m m' : Mem} {hh : Nat} {o : Val} {md : Option Int} {cs : List PCmd}
+    (h : emitAddR m hh o md = .ok (m', cs))
+    {H : List (Reg × Bool)} {L : List Nat} {mu : List Bool} {hs : HSt} {ts : St} {p : List PCmd} {n : Nat}
+    (hext : Ext m.handles H) (hrel : Rel H L m.active mu hs ts) (hpl : Placed p n cs)
+    {x y r : Int} (hx : hs.hregs hh = some x) (hy : evalVal hs o = some y) (hr : addResH x y md = some r) :
+    ∃ ts', Runs p n cs.length ts ts' ∧ Rel H L m.active mu (hs.setH hh r) ts' := by
+  unfold emitAddR at h
+  split at h
+  · cases h
+  · rename_i rg isRF hh1
+    split at h
+    · cases h
+    · split at h
+      · cases h
+      · rename_i m1 ld2 oo tmp2 h1
+        split at h
+        · cases h
+        · rename_i m2 h2
+          cases h
+          obtain ⟨rres, hres⟩ := addResH_some hr
+          have hH := hext _ _ (handle_get hh1)
+          have hrv := hrel.reg_val hx hH
+          obtain ⟨ts1, hte1, hrun1, hop1⟩ := addOther_sim h1 hext hrel (Sub.refl _) rfl hpl.left hy
+          have hreg : ts1.regs rg = some x := by
+            rw [hte1.regs rg hrv.2.not_tmp]; exact hrv.1
+          have hstep := step_addInstr ts1 rg oo md x y hpl.right.head hreg (hop1 ts1 (TmpEq.refl _ _)) rres
+          rw [hres] at hstep
+          refine ⟨ts1.setReg rg r, ?_, ?_⟩
+          · have := runs_seq hrun1 (runs_one hstep)
+            exact runs_cast this (by simp)
+          · exact (hrel.tmp hte1).setBoth hx hH r
 
 
 end NQ.Sdk
